@@ -19,6 +19,17 @@ Reporting interval (`case['interval']`, `case['clock']`): 0 / tiny / 1 / huge wi
 or any integer interval with `time_monotonic` of torf._generate pinned to `case['clock']` (one value
 per collected piece: frozen, stepping, jumping, running backwards) — one hasher thread then.
 
+Spelling of the content path (`case['family'] == 'spelling'`): a sandbox `world/` with `a/link -> b/t`
+(absolute or relative target), `a/toplink -> b/content`, `a/cwdlink -> b/t`, the tree the caller
+names at `b/content` (`case['disk']`, `case['flips']`) and possibly another tree at `a/content`
+(`case['textual']`, `case['tflips']`: absent / intact / damaged) — where `os.path.normpath` of the
+spelling points; `case['spelling']` = the path given to verify() relative to the sandbox root
+(`/a/link/../content`, `/a/link/../x/../content`, `/b//content`, `/b/./content`, `/b/content/`,
+`/a/toplink/../content`, …) or relative to `case['cwd']` (a directory that may be reached through a
+symbolic link).  The model gets the inode table (`c02.verifyspelled`).
+Resource environment (`case['family'] == 'fds'`): soft RLIMIT_NOFILE of the worker lowered to
+(descriptors in use + `case['fds']`) around verify(); 1…300 listed files.
+
 State of a listed path (`case['disk'][i]`):
   'ok' | 'missing' | n                         regular file (n = actual size)
   {'k':'file','size':n,'how':'symlink'}        symbolic link to a regular file of n bytes
@@ -29,11 +40,11 @@ State of a listed path (`case['disk'][i]`):
         'dir' a directory in its place, 'socket' a unix socket, 'inject' (patched open: EACCES —
         the tests run as root —, EMFILE, EIO …)
   {'k':'readerr','size':n,'off':o,'errno':e}   regular file of n bytes; a read() that covers byte
-        offset o raises OSError(e) (patched open in torf._stream returns a proxy handle; for a
-        zero-length entry also for real: 'how':'procmem', a symbolic link to /proc/self/mem)
+        offset o raises OSError(e) (patched open in torf._stream returns a proxy handle)
 """
 import errno
 import os
+import re
 import shutil
 import socket
 
@@ -110,8 +121,9 @@ def _describe(c):
 def _bad_empty_at_boundary(case):
     L, sizes, disk = case['L'], case['sizes'], case['disk']
     pos = 0
-    for s, st in zip(sizes, disk):
-        if s == 0 and _main_bad(s, st) and pos % L == 0:
+    emfile = case.get('emfile') or ()        # files whose open() hit the descriptor limit (model's `effective`)
+    for i, (s, st) in enumerate(zip(sizes, disk)):
+        if s == 0 and (_main_bad(s, st) or i in emfile) and pos % L == 0:
             return True
         pos += s
     return False
@@ -231,15 +243,15 @@ def _rm(p):
         shutil.rmtree(p)
 
 
-def _make(wd, c):
+def _make(wd, c, aux='aux', clean=('T', 'renamed')):
     """build the tree in its damaged state; returns (files, orig contents, contents now, top, inject plan)"""
     files = [{'path': p, 'size': s} for p, s in zip(c['paths'], c['sizes'])]
     dirname = c.get('dirname', 'T')
     single = c['single']
     top = os.path.join(wd, dirname)
-    for name in ('T', 'renamed', 'aux'):
+    for name in tuple(clean) + (aux,):
         _rm(os.path.join(wd, name))
-    aux = os.path.join(wd, 'aux')
+    aux = os.path.join(wd, aux)
     os.makedirs(aux)
     orig = [_good_bytes(c, i, f['size']) for i, f in enumerate(files)]
     flips = {}
@@ -275,10 +287,6 @@ def _make(wd, c):
             continue                                  # cannot exist
         if st == 'missing':
             now.append(None)
-            continue
-        if how == 'procmem':
-            os.symlink('/proc/self/mem', p)
-            now.append(b'')
             continue
         if k in ('ok', 'file', 'readerr') or how == 'inject':
             target = p
@@ -322,6 +330,144 @@ def _make(wd, c):
             with open(d, 'wb') as fh:
                 fh.write(b'not a directory')
     return files, orig, now, top, plan, socks
+
+
+FD_CAP = 10          # TorrentFileStream.max_open_files as committed (the model's `defaultCap`)
+
+SPELLINGS = [
+    # (spelling relative to the sandbox root or to cwd, cwd or None, does normpath name another tree?)
+    ('/a/link/../content', None, True),
+    ('/a/link/../x/../content', None, True),
+    ('/a/link/../content/', None, True),
+    ('/a/link/.././content', None, True),
+    ('/a/toplink/../content', None, True),
+    ('/a/toplink/../../b/content', None, False),
+    ('/b//content', None, False),
+    ('/b/./content', None, False),
+    ('/b/content/', None, False),
+    ('/b/content/.', None, False),
+    ('/b/x/../content', None, False),
+    ('/b/t/../content//', None, False),
+    ('../content', '/a/cwdlink', False),          # cwd reached through a symlink: the kernel is in /b/t
+    ('./../content/', '/a/link', False),
+    ('link/../content', '/a', True),
+    ('toplink/../content', '/a', True),
+    ('../b/content', '/a', False),
+    ('content/../../b/t/../content', '/b', False),
+]
+
+
+def _world(c):
+    """the sandbox of a spelling case as an inode table (what `c02.verifyspelled` gets)"""
+    nodes, contents = [], []
+
+    def new(n):
+        nodes.append(n)
+        return len(nodes) - 1
+
+    def mkdir(parent, name):
+        i = new({'k': 'd', 'r': True, 'x': True, 'e': []})
+        nodes[parent]['e'].append([name, i])
+        return i
+
+    def mklink(parent, name, target):
+        i = new({'k': 'l', 't': target})
+        nodes[parent]['e'].append([name, i])
+
+    root = new({'k': 'd', 'r': True, 'x': True, 'e': []})
+    a, b = mkdir(root, 'a'), mkdir(root, 'b')
+    mkdir(b, 't')
+    mkdir(b, 'x')
+    mklink(a, 'link', c['linktarget'])
+    if not c['single']:
+        mklink(a, 'toplink', '/b/content')
+    mklink(a, 'cwdlink', '/b/t')
+
+    def tree(parent, states, flips):
+        if c['single']:                      # the "tree" is the file itself
+            st = states[0]
+            if st == 'missing':
+                return
+            if st == 'ok' or not isinstance(st, dict):
+                size = c['sizes'][0] if st == 'ok' else int(st)
+                contents.append([0, size, [o for f, o in flips if f == 0]])
+                fi = new({'k': 'f', 'size': size, 'r': True, 'c': len(contents) - 1})
+                nodes[parent]['e'].append(['content', fi])
+            elif st['how'] == 'eloop':
+                mklink(parent, 'content', 'content')
+            elif st['how'] == 'dangling':
+                mklink(parent, 'content', 'nowhere0')
+            else:
+                raise RuntimeError(f'state {st} cannot be put into a world')
+            return
+        top = mkdir(parent, 'content')
+        dirs = {(): top}
+        for i, (p, n, st) in enumerate(zip(c['paths'], c['sizes'], states)):
+            d = ()
+            for comp in p[:-1]:
+                if d + (comp,) not in dirs:
+                    dirs[d + (comp,)] = mkdir(dirs[d], comp)
+                d += (comp,)
+            if st == 'missing':
+                continue
+            if st == 'ok' or not isinstance(st, dict):
+                size = n if st == 'ok' else int(st)
+                contents.append([i, size, [o for f, o in flips if f == i]])
+                fi = new({'k': 'f', 'size': size, 'r': True, 'c': len(contents) - 1})
+                nodes[dirs[d]]['e'].append([p[-1], fi])
+            elif st['how'] == 'eloop':
+                mklink(dirs[d], p[-1], p[-1])
+            elif st['how'] == 'dangling':
+                mklink(dirs[d], p[-1], f'nowhere{i}')
+            elif st['how'] == 'dir':
+                mkdir(dirs[d], p[-1])
+            else:
+                raise RuntimeError(f'state {st} cannot be put into a world')
+    tree(b, c['disk'], c['flips'])
+    if c['textual'] is not None:
+        tree(a, c['textual'], c['tflips'])
+    return nodes, contents
+
+
+def _make_world(wd, c):
+    """build the sandbox of a spelling case; returns (files, orig, now, path to give to verify(), cwd or None)"""
+    root = os.path.join(wd, 'world')
+    _rm(root)
+    for d in ('a', 'b/t', 'b/x'):
+        os.makedirs(os.path.join(root, d))
+    files, orig, now, top, plan, socks = _make(wd, dict(c, dirname='world/b/content'), aux='waux', clean=())
+    if c['textual'] is not None:
+        _make(wd, dict(c, dirname='world/a/content', disk=c['textual'], flips=c['tflips']), aux='waux2', clean=())
+    lt = c['linktarget']
+    os.symlink(root + lt if lt.startswith('/') else lt, os.path.join(root, 'a', 'link'))
+    if not c['single']:
+        os.symlink(root + '/b/content', os.path.join(root, 'a', 'toplink'))
+    os.symlink(root + '/b/t', os.path.join(root, 'a', 'cwdlink'))
+    sp = c['spelling']
+    path = root + sp if sp.startswith('/') else sp
+    cwd = root + c['cwd'] if c.get('cwd') else None
+    return files, orig, now, path, cwd
+
+
+class _FdLimit:
+    """soft RLIMIT_NOFILE = descriptors in use + k while verify() runs"""
+
+    def __init__(self, k):
+        self.k = k
+
+    def __enter__(self):
+        if self.k is not None:
+            import resource
+            self.old = resource.getrlimit(resource.RLIMIT_NOFILE)
+            inuse = len(os.listdir('/proc/self/fd')) - 1          # (listdir itself holds one while it runs)
+            resource.setrlimit(resource.RLIMIT_NOFILE, (inuse + self.k, self.old[1]))
+        return self
+
+    def __exit__(self, *a):
+        if self.k is not None:
+            import resource
+            resource.setrlimit(resource.RLIMIT_NOFILE, self.old)
+        return False
 
 
 def _make_intact(root, c):
@@ -420,14 +566,21 @@ class _PinnedClock:
         return False
 
 
+def _txt(p):
+    """a reported path as text, as torf's File objects spell it: `pathlib` drops empty and `.` components
+    (which never changes what the OS resolves below a directory) — `..` and symbolic links stay"""
+    import pathlib
+    return str(pathlib.PurePosixPath(str(p)))
+
+
 def _exc_obs(torf, e, index_of):
     if isinstance(e, torf.VerifyContentError):
         return {'kind': 'content', 'piece': e.piece_index,
-                'files': sorted(index_of.get(os.path.normpath(str(f)), -1) for f in e.files)}
+                'files': sorted(index_of.get(_txt(f), -1) for f in e.files)}
     if isinstance(e, torf.ReadError):
-        return {'kind': 'read', 'file': index_of.get(os.path.normpath(str(e.path)), -1), 'errno': e.errno}
+        return {'kind': 'read', 'file': index_of.get(_txt(e.path), -1), 'errno': e.errno}
     if isinstance(e, torf.VerifyFileSizeError):
-        return {'kind': 'size', 'file': index_of.get(os.path.normpath(str(e.filepath)), -1)}
+        return {'kind': 'size', 'file': index_of.get(_txt(e.filepath), -1)}
     if isinstance(e, torf.VerifyIsDirectoryError):
         return {'kind': 'isDir'}
     if isinstance(e, torf.VerifyNotDirectoryError):
@@ -445,8 +598,17 @@ def _run_chunk(cases):
         obs = {}
         orig = now = None
         socks = []
+        cwd0 = None
         try:
-            files, orig, now, top, plan, socks = _make(wd, c)
+            spelled = c.get('family') == 'spelling'
+            if spelled:
+                files, orig, now, top, cwd = _make_world(wd, c)
+                plan = {}
+                if cwd:
+                    cwd0 = os.getcwd()
+                    os.chdir(cwd)
+            else:
+                files, orig, now, top, plan, socks = _make(wd, c)
             L = c['L']
             stream = b''.join(orig)
             pieces = b''.join(common.sha1(stream[i:i + L]) for i in range(0, len(stream), L))
@@ -471,9 +633,9 @@ def _run_chunk(cases):
             elif c['pathkind'] == 'nothing-for-multi':
                 path = os.path.join(wd, 'nonexistent')
             if c['single']:
-                index_of = {os.path.normpath(path): 0}
+                index_of = {_txt(path): 0}
             else:
-                index_of = {os.path.normpath(os.path.join(path, *f['path'])): i for i, f in enumerate(files)}
+                index_of = {_txt(os.path.join(path, *f['path'])): i for i, f in enumerate(files)}
             for mode in ('nocb', 'cb'):
                 calls = []
 
@@ -481,7 +643,7 @@ def _run_chunk(cases):
                     calls.append({'same_torrent': tor is t, 'done': done, 'total': total, 'piece': pi,
                                   'hash': ph, 'exc': None if exc is None else _exc_obs(torf, exc, index_of)})
                 try:
-                    with _Inject(plan), _PinnedClock(c.get('clock')):
+                    with _Inject(plan), _PinnedClock(c.get('clock')), _FdLimit(c.get('fds')):
                         r = t.verify(path, threads=c['threads'], callback=cb if mode == 'cb' else None,
                                      interval=c.get('interval', 0))
                     obs[mode] = {'ok': r}
@@ -494,6 +656,8 @@ def _run_chunk(cases):
         finally:
             for s in socks:
                 s.close()
+            if cwd0 is not None:
+                os.chdir(cwd0)
         out.append((c, obs, orig, now))
     return out
 
@@ -508,24 +672,6 @@ def _dirsize():
     d = os.path.join(common.scratch_root(), 'dirsize-probe')
     os.makedirs(d, exist_ok=True)
     return os.path.getsize(d)
-
-
-_PROCMEM = None
-
-
-def _procmem_ok():
-    """does reading /proc/self/mem at offset 0 fail with EIO here? (a real path whose read() fails)"""
-    global _PROCMEM
-    if _PROCMEM is None:
-        try:
-            with open('/proc/self/mem', 'rb') as fh:
-                fh.read(1)
-            _PROCMEM = False
-        except OSError as e:
-            _PROCMEM = e.errno == errno.EIO and os.path.getsize('/proc/self/mem') == 0
-        except Exception:
-            _PROCMEM = False
-    return _PROCMEM
 
 
 def _offsets(rng, L, pos, n):
@@ -551,11 +697,7 @@ def _fs_state(rng, L, sizes, paths, i, single, dirsize, inject_only=False):
             opts += ['dir', 'dir']
             if len(paths[i]) > 1:
                 opts += ['enotdir', 'enotdir']
-        if size == 0 and _procmem_ok():
-            opts += ['procmem'] * 6
     o = rng.choice(opts)
-    if o == 'procmem':      # symlink to /proc/self/mem: stat size 0, open() works, read() raises EIO
-        return {i: {'k': 'readerr', 'off': 0, 'errno': errno.EIO, 'how': 'procmem'}}
     if o == 'gone-inject':
         return {i: {'k': 'gone', 'errno': rng.choice([errno.EACCES, errno.EIO, errno.ENOTDIR, errno.ESTALE]), 'how': 'inject'}}
     if o == 'noopen-inject':
@@ -775,6 +917,59 @@ def gen_cases(ctx, scale=1.0):
             sizes[0] = L + 1
         add(L, sizes, rng.choice(['intact', 'flip', 'files', 'files', 'both', 'fs', 'fs']), threads=rng.choice([1, 2, 4]),
             nested=not k % 2)
+    # the spelling of the content path: what the OS resolves differently from the text; two trees
+    def world_damage(sizes, kind):
+        disk, flips = ['ok'] * len(sizes), []
+        if kind == 'damaged':
+            for i in rng.sample(range(len(sizes)), min(len(sizes), rng.choice([1, 1, 2]))):
+                disk[i] = rng.choice(_states(sizes[i]) + [{'k': 'gone', 'errno': errno.ELOOP, 'how': 'eloop'},
+                                                          {'k': 'gone', 'errno': errno.ENOENT, 'how': 'dangling'},
+                                                          {'k': 'noopen', 'stat': dirsize, 'errno': errno.EISDIR, 'how': 'dir'},
+                                                          'flip', 'flip', 'flip'])
+                if disk[i] == 'flip':
+                    disk[i] = 'ok'
+                    if sizes[i]:
+                        flips.append([i, rng.randrange(sizes[i])])
+                    else:
+                        disk[i] = 'missing'
+        return disk, flips
+    for k in range(int(ctx.n(260, 4000) * scale)):
+        L = rng.choice([2, 3, 4, 8, 16])
+        shape, sizes = layouts.random_sizes(rng, L, nmax=8)
+        paths = layouts.paths_for(len(sizes), rng, True)
+        disk, flips = world_damage(sizes, rng.choice(['intact', 'damaged']))
+        sp, cwd, differs = SPELLINGS[k % len(SPELLINGS)]
+        single = k % 7 == 3 and 'toplink' not in sp and not sp.rstrip('.').endswith('/')
+        if single:                      # a single-file torrent: the spelling names the file itself
+            sizes, paths = [max(1, sizes[0])], [['f000']]
+            disk, flips = world_damage(sizes, rng.choice(['intact', 'damaged']))
+            if isinstance(disk[0], dict) and disk[0].get('how') == 'dir':
+                disk[0] = 'missing'
+        textual = rng.choice([None, 'intact', 'damaged', 'damaged'])
+        tdisk, tflips = (None, []) if textual is None else world_damage(sizes, textual)
+        if single and tdisk and isinstance(tdisk[0], dict) and tdisk[0].get('how') == 'dir':
+            tdisk[0] = 'missing'
+        cases.append({'family': 'spelling', 'L': L, 'sizes': sizes, 'disk': disk, 'flips': flips, 'single': single,
+                      'pathkind': 'normal', 'threads': rng.choice([1, 1, 2, 3]), 'kind': 'spelling', 'paths': paths,
+                      'cseed': rng.randrange(1 << 30), 'dirname': 'world/b/content', 'origin': 'loaded',
+                      'verify_as': 'direct', 'interval': 0, 'clock': None, 'spelling': sp, 'cwd': cwd,
+                      'textual': tdisk, 'tflips': tflips, 'dirsize': dirsize,
+                      'linktarget': rng.choice(['/b/t', '../b/t'])})
+    # the resource environment: few free file descriptors, many listed files
+    for k in range(int(ctx.n(70, 1500) * scale)):
+        L = rng.choice([2, 3, 8, 16, 16])
+        big = [100, 300] if ctx.thorough or k % 10 == 1 else [30, 50]      # (hundreds of files are slow to set up)
+        n = rng.choice([1, 3, 9, 10, 11, 12, 13, 20, 25, 40] + big) if k % 3 else rng.randint(1, 60)
+        sizes = [rng.choice([0, 1, 1, 1, 2, 3]) for _ in range(n)]
+        if sum(sizes) == 0:
+            sizes[0] = 1
+        paths = layouts.paths_for(n, rng, rng.random() < 0.3)
+        disk, flips = _gen_damage(rng, L, sizes, rng.choice(['intact', 'intact', 'flip', 'files']), paths, False, dirsize)
+        cases.append({'family': 'fds', 'L': L, 'sizes': sizes, 'disk': disk, 'flips': flips, 'single': False,
+                      'pathkind': 'normal', 'threads': rng.choice([1, 1, 2, 4]), 'kind': 'fds', 'paths': paths,
+                      'cseed': rng.randrange(1 << 30), 'dirname': 'T', 'origin': 'loaded', 'verify_as': 'direct',
+                      'interval': 0, 'clock': None,
+                      'fds': rng.choice([FD_CAP + 1, FD_CAP + 2, FD_CAP + 2, 20, 60, 3, 8, FD_CAP])})
     # single-file torrents and path-kind mismatches
     for _ in range(int(ctx.n(160, 3200) * scale)):
         L = rng.choice([2, 3, 8, 16384])
@@ -818,21 +1013,38 @@ def _key(c):
     import json
     return (c['L'], tuple(c['sizes']), tuple(json.dumps(d, sort_keys=True) for d in c['disk']),
             tuple(map(tuple, c['flips'])), c['single'], c['pathkind'], c.get('origin', 'loaded'),
-            c.get('verify_as', 'direct'), c.get('interval', 0), tuple(c.get('clock') or ()))
+            c.get('verify_as', 'direct'), c.get('interval', 0), tuple(c.get('clock') or ()),
+            c.get('spelling'), c.get('cwd'), json.dumps(c.get('textual')), c.get('fds'))
 
 
 def evaluate(ctx, drv, cases):
+    # the expensive families (hundreds of listed files) are generated next to each other: spread them
+    # over the worker chunks
+    import random
+    cases = list(cases)
+    random.Random(len(cases)).shuffle(cases)
     reqs = []
     for c in cases:
         pid = c['pathkind'] not in ('file-for-multi', 'nothing-for-multi') if not c['single'] else \
             c['pathkind'] == 'dir-for-single'
         pinned = c.get('clock') is not None
+        if c.get('family') == 'spelling':
+            fs, contents = _world(c)
+            reqs.append({'op': 'c02.verifyspelled', 'L': c['L'], 'sizes': c['sizes'], 'single': c['single'], 'fs': fs,
+                         'contents': contents, 'cwd': c.get('cwd') or '/', 'path': c['spelling'], 'names': c['paths'],
+                         'dirSize': c['dirsize'], 'tpath': None, 'interval': 0, 'clock': []})
+            continue
+        if c.get('family') == 'fds':
+            reqs.append({'op': 'c02.verifyenv', 'L': c['L'], 'sizes': c['sizes'], 'disk': c['disk'], 'flips': c['flips'],
+                         'single': False, 'pathIsDir': True, 'tpath': None, 'interval': 0, 'clock': [],
+                         'cap': FD_CAP, 'free': c['fds']})
+            continue
         reqs.append({'op': 'c02.verifycall', 'L': c['L'], 'sizes': c['sizes'], 'disk': c['disk'], 'flips': c['flips'],
                      'single': c['single'], 'pathIsDir': pid,
                      'tpath': '/original/T' if c.get('origin', 'loaded') in PATH_ORIGINS else None,
                      'interval': c.get('interval', 0) if pinned else 0, 'clock': c['clock'] if pinned else []})
     # on the two classic states the extended model must be the classic one (theorem C02_fs_conservative)
-    legacy_idx = [i for i, c in enumerate(cases) if _legacy(c)]
+    legacy_idx = [i for i, c in enumerate(cases) if _legacy(c) and not c.get('family')]
     replies = drv.run(reqs + [dict(reqs[i], op='c02.verify') for i in legacy_idx])
     for n, i in enumerate(legacy_idx):
         a, b = replies[i], replies[len(reqs) + n]
@@ -853,6 +1065,19 @@ def evaluate(ctx, drv, cases):
                                       'cseed', 'dirname')}
             case.update(origin=c.get('origin', 'loaded'), verify_as=c.get('verify_as', 'direct'),
                         interval=c.get('interval', 0), clock=c.get('clock'))
+            for x in ('family', 'spelling', 'cwd', 'textual', 'tflips', 'dirsize', 'linktarget', 'fds'):
+                if x in c:
+                    case[x] = c[x]
+            if c.get('family') == 'fds':
+                case['emfile'] = r.get('emfile')
+                ctx.dist[f'free descriptors:{c["fds"]}'] += 1
+                if not r.get('envConsistent', True):
+                    ctx.machinery_error('verifyEnv differs from verifyFs on the effective description', case)
+                if r.get('headroom') and r.get('emfile'):
+                    ctx.machinery_error('the model lets open() fail with cap + 1 descriptors free '
+                                        '(contradicts C02_descriptor_headroom)', case)
+            if c.get('family') == 'spelling':
+                ctx.dist['spelling:' + c['spelling'] + (' from ' + c['cwd'] if c.get('cwd') else '')] += 1
             pinned = c.get('clock') is not None
             throttled = not pinned and c.get('interval', 0) > 0       # real clock, interval > 0
             ctx.dist['origin:' + case['origin']] += 1
@@ -873,6 +1098,9 @@ def evaluate(ctx, drv, cases):
             ctx.sample({'case': case, 'model_nocb': r['nocb'], 'model_cb': r['cb']}, limit=4)
             pathmismatch = c['pathkind'] != 'normal'
             what_is_wrong = _describe(c) if not pathmismatch else f'path kind {c["pathkind"]}'
+            if c.get('family') == 'spelling' and r.get('resolvesTo', '').startswith('error'):
+                what_is_wrong = (f'the OS does not resolve the spelling (errno {r["resolvesTo"].split()[1]}: a regular file is '
+                                 'followed by further components, or the like); at the place named: ' + what_is_wrong)
             # ---- 1. implementation against the specification
             spec_ok = r['specOk'] and not pathmismatch
             nocb, cb, calls = obs['nocb'], obs['cb'], obs['calls']
@@ -961,6 +1189,12 @@ def evaluate(ctx, drv, cases):
                                      'reread': 'torrent created, dumped and re-read',
                                      'copy': 'copy() of a torrent created in this session',
                                      'reassigned': 'torrent created from a path, path re-assigned'}[case['origin']])
+                if c.get('family') == 'spelling':
+                    callinfo.append(f'path spelled {c["spelling"]!r}' + (f' from cwd {c["cwd"]}' if c.get('cwd') else '') +
+                                    f' in a sandbox where a/link -> {c["linktarget"]}; tree at a/content: ' +
+                                    ('absent' if c['textual'] is None else _describe(dict(c, disk=c['textual'], flips=c['tflips']))))
+                if c.get('family') == 'fds':
+                    callinfo.append(f'{len(c["sizes"])} listed files, {c["fds"]} file descriptors free')
                 if case['verify_as'] != 'direct':
                     callinfo.append({'relative': 'relative path', 'symlink-top': 'through a symlink to the top directory',
                                      'original': 'verifying Torrent.path itself'}[case['verify_as']])
@@ -1046,6 +1280,29 @@ def evaluate(ctx, drv, cases):
                                {'nocb': inocb, 'cb': icb, 'calls': [{**cl, 'hash': cl['hash'] and cl['hash'].hex()} for cl in icalls][:12]})
 
 
+def _measure_headroom(_):
+    """smallest number of free descriptors with which 40 intact listed files verify (in a worker)"""
+    torf = common.import_torf()
+    wd = common.worker_dir()
+    n, L = 40, 16
+    c = {'L': L, 'sizes': [3] * n, 'disk': ['ok'] * n, 'flips': [], 'single': False, 'paths': [[f'f{i:03d}'] for i in range(n)],
+         'cseed': 1, 'dirname': 'T'}
+    files, orig, now, top, plan, socks = _make(wd, c)
+    stream = b''.join(orig)
+    t = content.make_torrent(torf, wd, 'T', files, L, with_path=False)
+    t.metainfo['info']['pieces'] = b''.join(common.sha1(stream[i:i + L]) for i in range(0, len(stream), L))
+    t.validate = lambda: None
+    for k in range(1, 64):
+        try:
+            with _FdLimit(k):
+                ok = t.verify(top, threads=1) is True
+        except BaseException:  # noqa
+            ok = False
+        if ok:
+            return [k]
+    return [None]
+
+
 def _order(ctx):
     """report a failure on content that is exactly as recorded before failures on damaged content"""
     ctx.violations.sort(key=lambda v: 0 if 'content as recorded' in v.get('what', '') else 1)
@@ -1063,20 +1320,31 @@ def run(ctx, drv):
         'the torrent passed validate() (C07)',
         'path states that need another user or a faulty device (EACCES — the check runs as root —, EMFILE, EIO, an '
         'unreadable byte) are produced by shadowing `open` and `os` inside torf._stream for the listed paths only; '
-        'ENOENT, ENOTDIR, ELOOP, ENAMETOOLONG, EISDIR, ENXIO, symbolic links and (for zero-length entries: a link to '
-        '/proc/self/mem) EIO at read() are real file system states; FIFOs are not used (open() would block)',
+        'ENOENT, ENOTDIR, ELOOP, ENAMETOOLONG, EISDIR, ENXIO, symbolic links and are real file system states; FIFOs are not used (open() would block)',
         'the state of a path does not change during one verify() call (no race between exists(), getsize() and open())',
         'without a callback, when both an earlier error and an unreadable byte exist, either may be raised '
         '(the reader thread runs ahead of the collector)',
         'history of the Torrent object: created / re-read / copied / path re-assigned through the public API where torf '
         'can create the torrent of the case itself (multiples of 16 KiB, flat sorted names, no empty file); otherwise the '
         '`_path` attribute of the object is set to an intact original (Torrent.path only returns that attribute)',
+        'resource environment: the soft RLIMIT_NOFILE of the forked worker is lowered to (descriptors in use + k) around '
+        'verify(); the iff and the reports are demanded whenever k >= max_open_files + 1 = 11 (C02_descriptor_headroom; '
+        'the unchanged code needs no further descriptor, see coverage.descriptor_headroom); below that only the '
+        'correspondence with the model (open() fails with EMFILE once the handle table is as large as k) is checked',
+        'spelling of the content path: the sandbox of a spelling case is described to the model as an inode table; '
+        'path resolution is the operating system\'s (Reuse.resolve of the C18 model, trusted as in C18); torf wraps the '
+        'joined path in pathlib, which drops empty and `.` components (resolution-preserving below a directory)',
         'reporting interval: with the real clock only the verdict, the error reports and the final report are compared '
         'with the model (which progress reports pass is a matter of timing); with `time_monotonic` of torf._generate '
         'pinned to planned values (one hasher thread) every call is compared',
     ]
     evaluate(ctx, drv, gen_cases(ctx))
     _order(ctx)
+    k = common.pmap(_measure_headroom, [[0], [1]])[0][0]       # (two chunks so that it runs in a forked worker)
+    ctx.notes['descriptor_headroom'] = {
+        'max_open_files (committed)': FD_CAP, 'demanded free descriptors': FD_CAP + 1,
+        'measured: smallest number of free descriptors with which 40 intact listed files verify': k,
+        'constant beyond cap + 1': None if k is None else k - (FD_CAP + 1)}
 
 
 def search(ctx, drv):
